@@ -267,6 +267,8 @@ def oracle(line, out):
             return "Huffman: decode(encode(s)) != s"
     elif op == "resp":
         return oracle_resp(line, out)
+    elif op == "req":
+        return None          # (views are checked by oracle_req on the unstripped output)
     elif op in ("conn", "connv", "connx"):
         o = out.split(" ")
         if o[-1].startswith("x=") and o[-1] != "x=ok":
@@ -389,6 +391,11 @@ def classify(line, out):
     t = line.split(" ")
     op = t[0]
     o = out.split(" ")
+    if op == "req":
+        kinds = sorted(set(x.split(":")[0].rstrip("!~0123456789") + ("!" if "!" in x else "") for x in o
+                           if x[:1] in "ntd" and not x.startswith("nd=") and not x.startswith("nr=")))
+        cont = "+" in line
+        return "req:%s:cont%d:pad%d" % ("+".join(kinds), cont, any(("/%d/" % p) in line for p in (1, 7, 200)))
     if op == "resp":
         kinds = sorted(set(x.split(":")[0] for x in o))
         nrep = sum(1 for it in t[2:] if it.count(",i") + it.count("/i") > 1)
@@ -625,6 +632,316 @@ def corrupt_lines(ctx, valid_lines):
     return L
 
 
+# ---- request direction through h2.c -------------------------------------------------------------
+REQ_NAMES = [b"accept", b"accept-encoding", b"accept-language", b"user-agent", b"referer", b"cookie", b"cookie",
+             b"if-none-match", b"if-modified-since", b"range", b"authorization", b"cache-control", b"pragma",
+             b"x-forwarded-for", b"x-forwarded-proto", b"forwarded", b"origin", b"dnt", b"te", b"priority",
+             b"upgrade-insecure-requests", b"sec-fetch-mode", b"x-requested-with", b"if-match", b"if-range",
+             b"if-unmodified-since", b"content-type", b"accept-charset", b"from", b"max-forwards", b"via",
+             b"x-custom-one", b"x-y", b"alt-used", b"link", b"expect"]
+NO_DUP = {b"content-type", b"if-modified-since", b"if-none-match", b"host", b"content-length", b"te", b"expect",
+          b"priority"}
+
+
+def py_enc_str(s):
+    return py_enc_int(7, 0, len(s)) + s
+
+
+class PyEncoder:
+    """independent HPACK encoder with a random indexing policy (raw string literals)"""
+
+    def __init__(self, rng):
+        self.rng = rng
+        self.tbl = PyTable(4096)
+
+    def field(self, n, v):
+        rng = self.rng
+        full, name = self.tbl.find(n, v)
+        r = rng.random()
+        if full and r < 0.7:
+            return py_enc_int(7, 0x80, full)
+        mode = rng.choice("iiiwn")
+        flag, pb = {"i": (0x40, 6), "w": (0x00, 4), "n": (0x10, 4)}[mode]
+        if name and rng.random() < 0.8:
+            out = py_enc_int(pb, flag, name)
+        else:
+            out = bytes([flag]) + py_enc_str(n)
+        out += py_enc_str(v)
+        if mode == "i":
+            self.tbl.add(n, v)
+        return out
+
+    def block(self, hdrs):
+        out = b""
+        if hdrs and self.rng.random() < 0.05:
+            n = self.rng.choice([0, 100, 1000, 4096, self.rng.randint(0, 4096)])
+            self.tbl.resize(n)
+            out += py_enc_int(5, 0x20, n)
+            if self.rng.random() < 0.5:
+                self.tbl.resize(4096)
+                out += py_enc_int(5, 0x20, 4096)
+        for n, v in hdrs:
+            out += self.field(n, v)
+        return out
+
+
+def rand_req_value(rng, name):
+    if name == b"te":
+        return b"trailers"
+    if name == b"expect":
+        return b"100-continue"
+    if name == b"priority":
+        return rng.choice([b"u=1", b"u=3, i", b"i"])
+    if name == b"x-forwarded-for":
+        return rng.choice([b"10.0.0.1", b"192.168.1.7, 10.1.1.1"])
+    if name == b"x-forwarded-proto":
+        return rng.choice([b"http", b"https"])
+    k = rng.random()
+    if k < 0.6:
+        return bytes(rng.choice(b"abcdefghijklmnopqrstuvwxyzABCXYZ0123456789/.,;=-_%*+") for _ in range(rng.randint(1, 30)))
+    if k < 0.9:
+        return rng.choice([b"gzip, deflate, br", b"text/html,application/xhtml+xml;q=0.9,*/*;q=0.8", b"en-US,en;q=0.5",
+                           b"Mozilla/5.0 (X11; Linux x86_64)", b"https://www.example.com/a/b?c=d", b"no-cache",
+                           b"a=1", b"sid=abcdef0123456789", b"\"etag-1\"", b"bytes=0-99", b"Basic dXNlcjpwYXNz",
+                           b"Mon, 21 Oct 2013 20:13:21 GMT", b"1", b"cors"])
+    return bytes(rng.choice(b"ABCDEFxyz0123456789+/=") for _ in range(rng.randint(100, 900)))
+
+
+def rand_request(rng, es):
+    """(header list, expected view) of a well-formed request"""
+    method = rng.choice([b"GET", b"GET", b"GET", b"HEAD", b"POST", b"OPTIONS", b"DELETE", b"PUT"]) if es \
+        else rng.choice([b"POST", b"PUT"])
+    path = rng.choice([b"/", b"/index.html", b"/a/b/c", b"/x?y=1&z=2", b"/static/app.js", b"/s.css", b"/%41bc"])
+    host = rng.choice([b"www.example.com", b"example.org", b"a.b.c.d.example.net:8080", b"localhost", b"10.1.2.3"])
+    pseudo = [(b":method", method), (b":scheme", rng.choice([b"http", b"https"])), (b":path", path), (b":authority", host)]
+    rng.shuffle(pseudo)
+    hdrs, seen = [], {}
+    for _ in range(rng.choice([0, 1, 2, 3, 5, 8, 12])):
+        n = rng.choice(REQ_NAMES)
+        if n in seen and n in NO_DUP:
+            continue
+        if n == b"expect" and es:
+            continue
+        v = rand_req_value(rng, n)
+        seen[n] = 1
+        hdrs.append((n, v))
+    # what the request must hold: Host from :authority at its position, repeated fields merged
+    order, vals = [], {}
+    for n, v in pseudo:
+        if n == b":authority":
+            order.append(b"Host")
+            vals[b"Host"] = host
+    for n, v in hdrs:
+        if n in vals:
+            vals[n] += (b"; " if n == b"cookie" else b", ") + v
+        else:
+            order.append(n)
+            vals[n] = v
+    expect = (method, path, host, [(n, vals[n]) for n in order])
+    return pseudo + hdrs, expect
+
+
+def split_frags(rng, blk):
+    n = rng.choice([1, 1, 1, 2, 3, 4])
+    if n == 1 or len(blk) < 2:
+        return [blk]
+    cuts = sorted(rng.randint(0, len(blk)) for _ in range(n - 1))
+    parts, prev = [], 0
+    for c in cuts + [len(blk)]:
+        parts.append(blk[prev:c])
+        prev = c
+    return parts
+
+
+REQ_EXPECT = {}     # line -> ({item index: expected view}, [expected outcome tokens])
+
+
+class PyGlue:
+    """independent statement of what h2_recv_headers() must do with a HEADERS sequence, as far as the
+    HPACK state is concerned: decode it (serve / trailers / discard), postpone it, or kill the connection"""
+
+    def __init__(self):
+        self.cid = 0
+        self.kept = {}            # id -> [is_open, errored]
+        self.acked = False
+        self.goaway = 0
+        self.ndisc = 0
+        self.nrefused = 0
+
+    def _goaway(self, code):
+        if self.goaway and (self.goaway > 0 or code == -1):
+            return
+        self.goaway = code
+        if code != -1:
+            for v in self.kept.values():
+                v[0], v[1] = False, True
+
+    def _discard(self):
+        if self.goaway > 0:
+            return
+        self.ndisc += 1
+        if self.ndisc > 32:
+            self._goaway(11)
+
+    def headers(self, sid, es, dep, keep, block_ok):
+        """-> (outcome token without markers, decoded?)"""
+        if sid % 2 == 0 or (dep == sid and sid > self.cid):
+            self._goaway(1)
+            return "none", False
+        if sid <= self.cid:
+            st = self.kept.get(sid)
+            if st is None:
+                self._goaway(1)
+                return "none", False
+            if not st[0]:
+                st[0], st[1] = False, True
+                self._discard()
+                return "disc:%d:5" % sid, True
+            if not es:
+                st[0], st[1] = False, True
+                self._discard()
+                return "disc:%d:1" % sid, True
+            st[0] = False
+            if not block_ok:
+                self._goaway(9)
+            return "trl:%d" % sid, True
+        if self.goaway:
+            self._discard()
+            return "disc:%d:-" % sid, True
+        if len(self.kept) == 8:
+            if any(v[1] for v in self.kept.values()):
+                return "defer", False
+            if not self.acked and sid > 200:
+                self._goaway(11)
+                return "none", False
+            if not self.acked and any(not v[0] for v in self.kept.values()):
+                return "defer", False
+            self.cid = sid
+            self.nrefused += 1
+            if self.nrefused > 16:
+                self._goaway(-1)
+            self._discard()
+            return "disc:%d:7" % sid, True
+        self.cid = sid
+        if not block_ok:
+            self._goaway(9)
+            return "none", True
+        if keep:
+            self.kept[sid] = [not es, False]
+        return "new:%d" % sid, True
+
+
+def gen_req(ctx):
+    import copy
+    rng = ctx.rng
+    L = []
+    for _ in range(2500 if ctx.quick else 30000):
+        enc = PyEncoder(rng)
+        g = PyGlue()
+        items, expect, outs = [], {}, []
+        if rng.random() < 0.85:
+            items.append("A")
+            outs.append("a")
+            g.acked = True
+        nid = 1
+        fill = rng.random() < 0.4            # try to reach the concurrency limit
+        for _ in range(rng.choice([1, 2, 4, 8, 14, 24, 40, 70])):
+            if g.goaway > 0:
+                break
+            r = rng.random()
+            if r < 0.03:
+                items.append("G")
+                outs.append("g")
+                g._goaway(-1)
+                continue
+            if r < 0.10 and g.kept:
+                x = rng.choice(sorted(g.kept))
+                del g.kept[x]
+                items.append("X%d" % x)
+                outs.append("x")
+                continue
+            g0 = g.goaway
+            if r < 0.24 and g.kept:
+                # HEADERS on a stream the connection still tracks: trailers (or a protocol violation)
+                sid = rng.choice(sorted(g.kept))
+                es = rng.random() < 0.85
+                hdrs = [(rng.choice([b"x-trailer", b"grpc-status", b"x-checksum"]), rand_req_value(rng, b"x"))
+                        for _ in range(rng.randint(0, 3))]
+                keep, exp, bad = 0, None, False
+            else:
+                es = rng.random() < 0.75
+                hdrs, exp = rand_request(rng, es)
+                bad = rng.random() < 0.02
+                keep = int((rng.random() < (0.9 if fill else 0.15)) and len(g.kept) < 8)
+                sid = nid
+                nid += 2
+                if rng.random() < 0.01:
+                    sid += 1                  # even stream id
+            pad = str(rng.choice([0, 1, 7, 200])) if rng.random() < 0.15 else "-"
+            dep = str(rng.choice([0, 1, sid, sid + 2])) if rng.random() < 0.12 else "-"
+            trial = copy.deepcopy(enc)
+            trial.rng = rng
+            blk = trial.block(hdrs)
+            if bad:
+                blk += rng.choice([b"\xff\xff\xff\xff\xff\xff", b"\x80", b"\x3f\xff\xff\x7f\x82", b"\xff\x7f"])
+            tok, decoded = g.headers(sid, es, int(dep) if dep != "-" else None, keep, not bad)
+            if decoded:
+                enc = trial                  # the peer's encoder state advances only with what lighttpd decodes
+            if tok.startswith("new:") and exp is not None:
+                expect[len(items)] = exp
+            if g.goaway > 0:
+                tok += "!%d" % g.goaway
+            elif g.goaway < 0 and g0 == 0:
+                tok += "~"
+            outs.append(tok)
+            items.append("%s%d/%d/%s/%s/%s/%d" % (rng.choice("HHh"), sid, es, pad, dep,
+                                                 "+".join(C.hx(f) for f in split_frags(rng, blk)), keep))
+        line = "req 65535 " + " ".join(items)
+        REQ_EXPECT[line] = (expect, outs)
+        L.append(line)
+    return L
+
+
+VIEW_RE = None
+
+
+def strip_view(out):
+    import re
+    global VIEW_RE
+    if VIEW_RE is None:
+        VIEW_RE = re.compile(r";v=\S*")
+    return VIEW_RE.sub("", out)
+
+
+def oracle_req(line, out):
+    """outcome of every HEADERS sequence and views of the served requests"""
+    ent = REQ_EXPECT.get(line)
+    if ent is None:
+        return None
+    exp, outs = ent
+    o = out.split(" ")
+    if "IDBAD" in out:
+        return "h2_parse_headers_frame: a request header is filed under an id that is not the id of its name"
+    got = [x.split(";v=")[0] for x in o[:len(outs)]]
+    if got != outs:
+        k = next((i for i in range(min(len(got), len(outs))) if got[i] != outs[i]), min(len(got), len(outs)))
+        return "h2_recv_headers: header block not handled as it must be for the HPACK state (%s instead of %s)" % (
+            (got[k] if k < len(got) else "nothing").split(":")[0], (outs[k] if k < len(outs) else "nothing").split(":")[0])
+    for i, e in exp.items():
+        if i >= len(o) or not o[i].startswith("new:"):
+            continue
+        if ";v=" not in o[i]:
+            return "harness: view missing"
+        v = o[i].split(";v=")[1].split("|")
+        method, path, host, hdrs = e
+        got_h = [] if v[5] == "-" else [tuple(C.unhx(x) for x in f.split(".", 1)[1].split("=")) for f in v[5].split(",")]
+        if v[1] != C.hx(method) or v[2] != C.hx(path) or v[3] != C.hx(host) or got_h != hdrs:
+            return "h2 request: the request does not hold the method/path/authority/field list that was encoded"
+        if v[0] not in ("0", "200"):
+            return "h2 request: well-formed request answered with status %s at header parsing" % v[0]
+    return None
+
+
 def rand_case(rng, name):
     k = rng.random()
     if k < 0.5:
@@ -698,6 +1015,19 @@ def run(ctx):
     resp = gen_resp(ctx)
     ctx.differential("resp(h2_send_headers -> nghttp2)", [exe], "hpack", resp, oracle, classify)
     ctx.dist["responses"] = sum(l.count(" R") for l in resp)
+    req = gen_req(ctx)
+    raw, rrc, rerr = C.parallel_lines([exe], req)
+    if rrc == 0 and len(raw) == len(req):
+        seen = set()
+        for l, o in zip(req, raw):
+            v = oracle_req(l, o)
+            if v and v not in seen:
+                seen.add(v)
+                ctx.violation("oracle:req:" + v, v, {"property": ctx.pid, "kind": "property-oracle",
+                              "correspondence": "req", "input": l, "impl_obs": o, "oracle_verdict": v}, found=True)
+    ctx.differential("req(h2_parse_frames/h2_recv_headers -> HPACK state)", [exe], "hpack", req, oracle, classify,
+                     canon=strip_view)
+    ctx.dist["request_header_sequences"] = sum(l.count(" H") + l.count(" h") for l in req)
     ctx.dist["blocks_valid"] = sum(l.count(" B") + l.count(" D") for l in valid)
     ctx.dist["histories_valid"] = len(valid)
     ctx.dist["corrupted_blocks"] = len(bad)
